@@ -815,7 +815,10 @@ def c35(run):
 
 @check("C03")
 def c03(run):
-    run.mc_leg("mc_grammar", "MC_Grammar", "MC_Grammar.cfg", workers=16, timeout=1800)
+    # MC + RP: every rendering MC_Grammar reads back (16 statement shapes x 960 choices of surface syntax) also goes
+    # through the real parser, which must read what the grammar reads (= the statement, by ReadsBack)
+    run.rp_rec_leg("rp_parse", "MC_Grammar", "MC_GrammarRP.cfg", "parse", "MC_Grammar_ops.ndjson", spec="TV_Parse", cfg="TV_Parse.cfg",
+                   verdict=["panic", "grammar", "grammar-accept", "unknown-event"], workers=16)
     run.rec_leg("parse", ["parse"], spec="TV_Parse", cfg="TV_Parse.cfg",
                 verdict=["panic", "stmts-written", "spans", "layout-image", "unknown-event"])
     return run.finish(
